@@ -1,5 +1,6 @@
 use crate::engine::{Prop, Tier};
 
+pub mod c01;
 pub mod c02;
 pub mod c03;
 pub mod c04;
@@ -27,6 +28,7 @@ pub mod returned;
 
 pub fn make(id: &str, tier: Tier) -> Option<Box<dyn Prop>> {
     Some(match id {
+        "C01" => Box::new(c01::C01::new(tier)),
         "C02" => Box::new(c02::C02::new(tier)),
         "C03" => Box::new(c03::C03::new(tier)),
         "C04" => Box::new(c04::C04::new(tier)),
